@@ -28,7 +28,7 @@ def c10_exhaustive(maxlen, batches=(1, 2, 3, BIG)):
     return out
 
 
-def random_stream(rnd, nspans, nids, njobs=2, dangling=0.15):
+def random_stream(rnd, nspans, nids, njobs=2, dangling=0.15, xjob=0.0):
     """a stream with duplicate ids at random places; span i belongs to trace i mod njobs; the first id of a trace is
     its root, every other span points to a lower id of its own trace (acyclic, one root per trace) or to a missing span"""
     ids = ["e%d" % i for i in range(1, nids + 1)]
@@ -42,7 +42,10 @@ def random_stream(rnd, nspans, nids, njobs=2, dangling=0.15):
         else:
             par = ids[rnd.choice(range(i % njobs, i, njobs))]
         s = rnd.randrange(0, 8)
-        out.append(span(ids[i], par, "j%d" % (1 + i % njobs), "n%d" % (1 + i % 2), rnd.choice("ABC"), s,
+        job = "j%d" % (1 + i % njobs)
+        if rnd.random() < xjob:
+            job = "j%d" % (1 + (i + 1) % njobs)      # the id re-used by a span of another trace
+        out.append(span(ids[i], par, job, "n%d" % (1 + i % 2), rnd.choice("ABC"), s,
                         s + rnd.randrange(0, 3)))
     return out
 
@@ -52,14 +55,17 @@ def c10_random(n, seed, across_runs=True):
     out = []
     for k in range(n):
         nids = rnd.randrange(2, 7)
-        st = random_stream(rnd, rnd.randrange(3, 13), nids)
+        # span ids re-used under another trace id only where no cleaning runs in between (a parent in another trace is
+        # outside what the cleaning steps are specified for)
+        mid = across_runs and k % 2 and rnd.random() < 0.5
+        xj = 0.0 if mid else 0.12
+        st = random_stream(rnd, rnd.randrange(3, 13), nids, xjob=xj)
         b = rnd.choice([1, 2, 3, 4, 5, 7, BIG])
         runs = [{"ing": True, "ug": False, "only_ingest": True, "spans": st}]
         if across_runs and k % 2:
             # a second (and third) process ingests an overlapping stream into the same database; in between the full
             # pipeline (with cleaning) may run
-            st2 = random_stream(rnd, rnd.randrange(2, 10), nids)
-            mid = rnd.random() < 0.5
+            st2 = random_stream(rnd, rnd.randrange(2, 10), nids, xjob=xj)
             runs = [{"ing": True, "ug": False, "only_ingest": not mid, "spans": st},
                     {"ing": True, "ug": False, "only_ingest": True, "spans": st2 + (st[:3] if rnd.random() < 0.5 else [])}]
         out.append({"B": b, "buf": 0, "runs": runs})
@@ -191,16 +197,24 @@ def filter_scenarios(n, seed, batches=(1, 2, 3, 5, BIG)):
 
 def reuse_scenarios(n, seed, batches=(1, 2, 3, 5, BIG)):
     """one data-holder object used in phases: ingest some spans, stream, ingest more (new traces, late children of
-    spans that were leaves at the first stream, late parents), stream again"""
+    spans that were leaves at the first stream, late parents), stream again; a quarter of the stores hold the same trace
+    id under two workflow names"""
     rnd = random.Random(repr(("c12r", seed)))
     shp = shapes(4)
     out = []
     for k in range(n):
         nt = rnd.randrange(2, 5)
         per = []
+        shared = k % 4 == 1
         for i in range(nt):
             name = "n%d" % (1 + rnd.randrange(2))
-            per.append(tree_spans(rnd.choice(shp), "j%d" % (i + 1), name, "t%d_" % (i + 1), t0=2 + rnd.randrange(3)))
+            job = "j%d" % (i + 1)
+            if shared:
+                # trace ids are only unique within a workflow: two whole traces (distinct span ids) with the same trace
+                # id under different workflow names, neighbours in the (name, trace id) order of the stream
+                name = "n1" if i == 0 else ("n2" if i == 1 else name)
+                job = "k0" if i < 2 else (("j%d" if name == "n1" else "t%d") % (i + 1))
+            per.append(tree_spans(rnd.choice(shp), job, name, "t%d_" % (i + 1), t0=2 + rnd.randrange(3)))
         # parents before their children in every trace (pre-order, traces interleaved): whatever the cut points, the
         # store never holds a span whose parent is missing, so every stream reads a store of whole, consistent trees
         st = interleave(rnd, per) if k % 3 else [s for p in per for s in p]
